@@ -18,8 +18,9 @@ FLOORS = {"objects_decoded": 4000, "parts_checked": 100000, "seen:st": 1000, "se
           "null_refs_decoded": 100, "strides_checked": 100, "decodes_after_assignment": 3000,
           "assign:whole-from-xobject": 150, "assign:ref": 150, "assign:leaf": 1000}
 FLOORS.update({"form:" + f: 400 for f in set(FORMS)})
+FLOORS.update({"form:dims": 400, "extents_given_as_numpy_integers": 200})
 RULE = ("random type AST x value x placement x input form (plain data, kwargs, ndarray C/F/strided/object, another "
-        "xobject of the same or another buffer, nested xobjects), followed by 0-3 fitting assignments (leaf, whole "
+        "xobject of the same or another buffer, nested xobjects; arrays of static items also from their extents alone, given as python or numpy integers of any width, then filled item by item), followed by 0-3 fitting assignments (leaf, whole "
         "nested struct/array from plain data or from an xobject living elsewhere in the same buffer, reference "
         "re-binding); after construction and after EVERY assignment the raw bytes of the buffer are handed to a "
         "decoder written only from Architecture.md / types.rst / the property text, which must recover the model "
@@ -102,7 +103,65 @@ def _judge(w, c, h, mv, info, stage, seen):
     return bool(seen)
 
 
+_NPINT = [np.int8, np.uint8, np.int16, np.uint16, np.int32, np.uint32, np.int64, np.uint64]
+
+
+def _dims_case(w, rng):
+    """An array with statically sized items created from its dynamic extents alone (python integers or numpy integers
+    of any width, also narrow ones), small or fairly large; afterwards every item is assigned through the handle and
+    the bytes are decoded: header (extents, strides implied by the declared order) and every value."""
+    from xv.typegen import TypeGen, ValGen, AVal, is_static
+    from xv.model import Env
+    from xv.props.common import Case
+    tg = TypeGen(rng, max_depth=2, refs=False, strings=False)
+    for _ in range(50):
+        t = tg.g_ar(2)
+        if is_static(t["it"]) and None in t["dims"]:
+            break
+    else:
+        return
+    c = Case()
+    c.t, c.cache = t, {}
+    c.cls = build(t, c.cache)
+    big = t["it"]["k"] == "sc" and rng.random() < 0.5
+    shape = [d if d is not None else (rng.randint(5, 40) if big else rng.randint(0, 3)) for d in t["dims"]]
+    while int(np.prod(shape)) > 1500:  # keep the item-by-item fill cheap (and inside the decoder's sanity cap)
+        i = max((i for i, d in enumerate(t["dims"]) if d is None), key=lambda i: shape[i])
+        shape[i] = max(1, shape[i] // 2)
+    vg = ValGen(rng)
+    mv = AVal(shape, {idx: vg.value(t["it"]) for idx in np.ndindex(*shape)})
+    c.env = Env(rng, ctx=ctxs()[0])
+    args, how = [], []
+    for s_, d in zip(shape, t["dims"]):
+        if d is None:
+            ty = rng.choice([int, int] + [x for x in _NPINT if s_ <= np.iinfo(x).max])
+            args.append(ty(s_))
+            how.append(ty.__name__)
+    info = dict(type=t, shape=shape, extents_given_as=how, placement=c.env.placement(), form="dims")
+    try:
+        try:
+            h = c.cls(*args, _buffer=c.env.buf)
+            for idx, v in mv.items.items():
+                h[idx if len(idx) > 1 else idx[0]] = plain(t["it"], v, rng, np_scalars=True)
+        except Exception as e:
+            w.violation(f"construct-{exc_kind(e)}|dims", f"{type(e).__name__}: {e}", info)
+            return
+        w.count("objects_decoded")
+        w.count("form:dims")
+        if any(x != "int" for x in how):
+            w.count("extents_given_as_numpy_integers")
+        if len(shape) > 1:
+            w.count("strides_checked")
+        _judge(w, c, h, mv, info, "", set())
+        w.case([shape_sig(t), "dims", how], nontrivial=True)
+    finally:
+        c.env.close()
+        flush_contracts(w, info)
+
+
 def run_case(w, rng):
+    if rng.random() < 0.06:
+        return _dims_case(w, rng)
     form = rng.choice(FORMS)
     c = new_case(w, rng, roots=("ar", "ar", "st") if form.startswith("nd_") else ("st", "ar", "str", "ur"),
                  modes=(None, None, "aligned", "packed", "explicit") if form in ("plain", "kwargs") else (None, None, "aligned", "packed"))
